@@ -206,14 +206,14 @@ CHECKS["C11"] = {
     "technique": MC + " (history BFS with dedup on the reference model state; two-dict model of delegation/prototyping)",
     "text": "DelegatesTo and PrototypedFrom in all four prefix styles (same name, explicit name, 'prefix*', '*' with "
             "__prefix__) plus a three-level renaming chain; one deferring object, two candidate delegates; every "
-            "history up to depth 4 (5 thorough) over ~60 events (valid/invalid assignment through the deferring "
+            "history up to depth 3 (4 thorough; 5 and 6 for the two-attribute class and the chain) over ~75 events (valid/invalid assignment through the deferring "
             "object, assignment on either delegate, delegate swap, deletion of the local value). After every step "
             "all reads through both objects must equal a two-dict reference model, DelegatesTo writes must land in "
             "the delegate only, invalid writes must raise TraitError and change nothing, PrototypedFrom must break "
             "and restore the link, and on_trait_change/observe handlers of each deferring attribute must be called "
             "with the new value for target changes on the current delegate while linked and never for former "
             "delegates or broken links.",
-    "note": "notification on delegate swap unconstrained (statement silent); listenable=True; depth 4/5",
+    "note": "notification on delegate swap unconstrained (statement silent); listenable=True",
 }
 CHECKS["C13"] = {
     "category": "model_checking",
